@@ -11,4 +11,6 @@ for which, name in (("reserved", "Reserved_gen.v"), ("agents", "Agents_gen.v")):
     p = os.path.join(vlib.COQ, name)
     if not os.path.exists(p) or open(p).read() != out:
         open(p, "w").write(out)
+import census
+census.regenerate()
 print("tables regenerated")
